@@ -30,6 +30,7 @@ def run(ck, tier):
     n = serde_audit.audit(ck, p, "R-C19-serde", "harper_stats::record::Record", "Record")
     ck.floor("R-C19-serde", "ADTs in the serde graph of Record", n, 9)
     _count(ck, p, byk)
+    _finite(ck, facts.load())
 
 
 def _write(ck, p, byk):
@@ -324,3 +325,28 @@ def _to_writer_form(ck, p, f, cfg, pv, rule, loops):
     ck.decide(rule, "Stats::write:newline", bool(nl) and ok and not twice and not other_w, f.loc(t["ln"]),
               "newline writes at bb%s; on every path from to_writer to the next iteration=%s; second newline within one iteration=%s; other raw writes=%s" % (nl, ok, twice, other_w))
     return True
+
+
+# ---------------------------------------------------------------------------------------------------
+def _finite(ck, p):
+    """A record carries the tokens around the lint, numbers among them, and the log is JSON: serde_json writes a
+    non-finite f64 as `null`, which does not read back as a number - one such token makes Stats::read fail for the
+    whole file.  Number values come from the lexer's `parse::<f64>()`, which yields infinity for `1e999`."""
+    from ..util import fns_by_key, with_closures
+    from ..common import method
+    rule = "R-C19-finite"
+    ck.rule(rule, "every number that can end up in a record is finite: the number lexer keeps a parsed f64 only if it is finite (is_finite / !is_infinite && !is_nan on the parse result) - serde_json writes infinity and NaN as null, and a log line with such a token does not read back")
+    fs = fns_by_key(p).get("harper_core::lexing::lex_number")
+    if not ck.anchor(rule, "lexing::lex_number", fs):
+        return
+    f = fs[0]
+    ck.saw(f)
+    parses = [(g, t) for g in with_closures(p, f) for _, t in g.calls() if method(t) == "parse"]
+    tests = sorted({method(t) for g in with_closures(p, f) for _, t in g.calls() if method(t) in ("is_finite", "is_infinite", "is_nan", "is_normal", "classify")})
+    key = "lex_number:finite-value"
+    if not parses:
+        ck.undecided(rule, key, f.span, "no str::parse in lex_number: how the value is obtained is not of a recognised form")
+    elif tests:
+        ck.proved(rule, key, f.loc(parses[0][1]["ln"]), "the parsed value is tested (%s) before it becomes a token" % ", ".join(tests))
+    else:
+        ck.refuted(rule, key, f.loc(parses[0][1]["ln"]), "the result of parse::<f64>() becomes the token's value without a finiteness test: `1e999` lexes to a number token whose value is infinity, serde_json writes it as \"value\":null, and reading that line back fails (invalid type: null, expected f64) - the statistics log is unreadable from then on")
